@@ -156,8 +156,22 @@ impl ToArg for f64 {
         Arg::F64(self.to_bits())
     }
 }
+thread_local! {
+    static INVALID_UTF8: std::cell::Cell<bool> = const { std::cell::Cell::new(false) };
+}
+
+/// true if a handler was handed a `&str` that is not valid UTF-8 since the last call
+pub fn take_invalid_utf8() -> bool {
+    INVALID_UTF8.with(|c| c.replace(false))
+}
+
 impl ToArg for &str {
     fn to_arg(&self) -> Arg {
+        // a `&str` must be valid UTF-8 whatever the input was (an unchecked conversion in the
+        // library would be undefined behaviour waiting to happen): re-validate at the boundary
+        if std::str::from_utf8(self.as_bytes()).is_err() {
+            INVALID_UTF8.with(|c| c.set(true));
+        }
         Arg::Str(self.as_bytes().to_vec())
     }
 }
